@@ -25,7 +25,7 @@ ASSUMPTIONS = [
     "dask's SVD refusing a 2-D chunking (NotImplementedError) and scipy svds refusing k = min(shape) are refusals",
     "pass-through options are exercised with solver='randomized' (they are options of the randomised solvers)",
 ]
-TIERS = {"quick": (8, 120), "thorough": (16, 1500)}
+TIERS = {"quick": (8, 400), "thorough": (16, 3000)}
 
 PARTS = ["threshold", "threshold", "solvers", "seed", "sign", "kwargs"]
 KW_CLASSES = ["EOF", "ComplexEOF", "HilbertEOF", "ExtendedEOF", "OPA", "POP", "SparsePCA", "CPCCA", "MCA", "PCA", "SVD", "Decomposer"]
@@ -111,9 +111,13 @@ def run_threshold(desc, ctx):
         f = cum[j] + d if fm == "near_above" else cum[j] - d
     f = float(min(1.0, max(1e-6, f)))
     full_cum = np.cumsum(s_true**2) / np.sum(s_true**2)
-    if np.any(np.abs(full_cum - f) < 1e-9):
-        ctx.refused("generator: fraction within 1e-9 of a cumulative value")
     k_exp, reached, pre, cum = expected_count(s_true, n, f, irr)
+    one_ok = False
+    if f == 1.0 and (pre < 2 or cum[pre - 2] < 1 - 1e-9) and (pre < len(full_cum) and full_cum[pre - 1] < 1 - 1e-9 or pre == len(full_cum)):
+        # all precomputed modes are needed whatever round-off does to the last cumulative value; only the warning is unspecified
+        one_ok, k_exp = True, pre
+    elif np.any(np.abs(full_cum - f) < 1e-9):
+        ctx.refused("generator: fraction within 1e-9 of a cumulative value")
     target = desc["target"]
     ctx.event(f"target={target}")
     ctx.event(f"fmode={fm}")
@@ -142,7 +146,9 @@ def run_threshold(desc, ctx):
         return
     ctx.check(got == k_exp, "threshold_mode_count",
               f"kept {got} modes, expected {k_exp} (f={f!r}, precomputed {pre}, cumulative {np.round(cum[:6], 9)})", **disc)
-    if not reached:
+    if one_ok:
+        pass
+    elif not reached:
         ctx.check(warned, "threshold_warning", f"fraction {f} unreachable with {pre} precomputed modes but no warning was issued", **disc)
     elif fm != "one":
         ctx.check(not warned, "threshold_spurious_warning", "warning although the fraction was reached", **disc)
